@@ -533,7 +533,12 @@ pub fn parent_main(spec: &Spec, tier: Tier, seed: u64) -> i32 {
     while !pending.is_empty() || !running.is_empty() {
         while running.len() < maxpar && !pending.is_empty() {
             let k = pending.pop().unwrap();
-            let child = std::process::Command::new(&exe)
+            // every worker runs under an address-space limit so that a runaway allocation
+            // in the crate under test aborts that worker instead of exhausting the machine
+            let child = std::process::Command::new("/bin/sh")
+                .arg("-c")
+                .arg("ulimit -v 16777216 2>/dev/null; exec \"$0\" \"$@\"")
+                .arg(&exe)
                 .arg("--worker")
                 .arg(spec.id)
                 .arg(tier.name())
